@@ -8,6 +8,7 @@ from hypothesis import strategies as st
 
 from .. import gens, refs
 from ..runner import Sub
+from . import probes
 from .common import L, Checker, arr
 
 PROPERTY_ID = "C14"
@@ -16,6 +17,7 @@ RULE = ("kinds: trnorm / trnorm2 (valid SO(n)/SE(n) member + entry noise 1e-15..
         "unittwist (3D and 2D twists, rotational part exactly 0, below (1e-17..1e-15) or above (>=1e-13) the zero threshold; "
         "base functions and Twist3/Twist2.unit), angdiff (angles and differences within +-1e3 incl. exact multiples of pi). "
         "Non-trivial: noise >= 1e-9, or norm outside [0.1,10], or irrotational twist, or |angle| > pi.")
+RULE = RULE + probes.RULE_TEXT + (probes.AUG_TEXT if PROPERTY_ID in probes.AUG_PROPS else "")
 ASSUMPTIONS = ["tolerance 1e-12 throughout (absolute on unit-norm / orthonormality residuals, relative to the input magnitude for directions)",
                "angdiff congruence residual is evaluated with mpmath at 50 digits; tolerance 1e-12*max(1,|a|,|b|)",
                "planar trnorm2 / SO2.norm / SE2.norm: validity, idempotence, fixed point, translation kept and closeness to the input (the 3-D axis clauses of the statement have no planar analogue)"]
@@ -71,6 +73,8 @@ def s_angdiff():
 
 
 def check_case(case):
+    if case.get("kind") in ("hist", "aug"):
+        return probes.run(case, PROPERTY_ID)
     return {"trnorm": _trnorm, "trnorm2": _trnorm2, "unitvec": _unitvec, "unitq": _unitq, "unittwist": _unittwist, "angdiff": _angdiff}[case["kind"]](case)
 
 
@@ -313,6 +317,8 @@ def _angdiff(case):
 
 
 def classify(case):
+    if case.get("kind") in ("hist", "aug"):
+        return probes.classify(case)
     k = case["kind"]
     lab = {"kind:" + k: True}
     if k in ("trnorm", "trnorm2"):
@@ -339,4 +345,5 @@ def subchecks(tier):
         Sub("unitq", strategy=s_unitq(), n=(600, 15000), shards=(3, 8)),
         Sub("unittwist", strategy=s_unittwist(), n=(800, 15000), shards=(4, 16)),
         Sub("angdiff", strategy=s_angdiff(), n=(800, 15000), shards=(3, 8)),
+        *probes.subs(PROPERTY_ID),
     ]
